@@ -12,7 +12,7 @@ import numpy as np
 from .. import bus, cover, gen, ref
 
 LEVEL = 'exploration'
-JOBS = {'quick': 1, 'thorough': 16}
+JOBS = {'quick': 2, 'thorough': 16}
 REQUIRED_MONITORS = ('min_image_reference', 'symmetry', 'lattice_shift', 'inverse_flag', 'history_independence')
 REQUIRED_CLASSES = ('box:cubic', 'box:anisotropic', 'box:triclinic', 'arg:residue', 'arg:point', 'arg:multi-residue-molecule',
                     'placement:across-face', 'placement:far-outside', 'placement:lattice-points', 'box:triclinic-upper-only', 'box:triclinic-full', 'wrapped:yes', 'wrapped:no',
